@@ -43,25 +43,34 @@ ASSUME RawSeq[RawIx(FALSE, TRUE, "args", TRUE, "true")] =
           [is |-> FALSE, il |-> TRUE, ic |-> "args", ics |-> TRUE, cl |-> "true"]
 
 \* seeded defects of the transition (negative controls)
-BugStep(st, e) ==
+BugStepB(st, e, bug) ==
     LET s == Step(st, e) IN
-    CASE Buggy = "none" -> s
+    CASE bug = "none" -> s
       \* the CSE cache forgets that its content depends on the flags: entry made for the body only
-      [] Buggy = "csememo_body" ->
+      [] bug = "csememo_body" ->
             [s EXCEPT !.csememo = { [key |-> p.key, val |-> Deps(p.key.a, AllOff)] : p \in @ }]
       \* a second call recounts CSEs already seen
-      [] Buggy = "seen_reset" -> (IF st.kind = "cse"
+      [] bug = "seen_reset" -> (IF st.kind = "cse"
                                   THEN LET f == CSEFlopsImpl(e) IN
                                        [s EXCEPT !.lastn = f, !.total = st.total + f] ELSE s)
       \* memo key without the type tag and a count per visit
-      [] Buggy = "count_visits" -> (IF st.kind = "ncm" THEN [s EXCEPT !.count = @ + 1] ELSE s)
+      [] bug = "count_visits" -> (IF st.kind = "ncm" THEN [s EXCEPT !.count = @ + 1] ELSE s)
+BugStep(st, e) == BugStepB(st, e, Buggy)
 
-Init == inst \in { NewInst(k, r) : k \in {"dm", "cdm"}, r \in RawPick }
-               \cup { NewInst(k, 1) : k \in {"fc", "cse", "ncm"} }
+Starts == { NewInst(k, r) : k \in {"dm", "cdm"}, r \in RawPick } \cup { NewInst(k, 1) : k \in {"fc", "cse", "ncm"} }
+Init == inst \in Starts
 Next == /\ Len(inst.hist) < D
         /\ \E e \in Pool : inst' = BugStep(inst, e)
 
 InstInvHolds == InstInv(inst)
+
+\* negative controls at start-up: each seeded defect breaks InstInv on some history of length 2
+\* (the C09_Inst_neg_*.cfg runs of the thorough tier let TLC find the violation as an invariant)
+InstBugs == {"csememo_body", "seen_reset", "count_visits"}
+InstNegControls ==
+    \A b \in InstBugs : \E s0 \in Starts, e1 \in PoolQuick, e2 \in PoolQuick :
+        ~InstInv(BugStepB(BugStepB(s0, e1, b), e2, b))
+ASSUME InstNegControls /\ PrintT(ToJson([instnegcontrols |-> Cardinality(InstBugs)]))
 Emit == Len(inst.hist) = D =>
             PrintT(ToJson([kind |-> inst.kind, raw |-> inst.raw, h |-> inst.hist]))
 =============================================================================
